@@ -93,6 +93,7 @@ pub fn fits_u<T: Nx>(x: &BigInt) -> bool {
     *x >= BigInt::from(0u8) && *x <= bu(T::UMAX)
 }
 
+#[allow(dead_code)]
 pub fn fits_s<T: Nx>(x: &BigInt) -> bool {
     *x >= bs(T::SMIN) && *x <= bs(T::SMAX)
 }
@@ -174,6 +175,7 @@ impl Tally {
         *self.map.entry((helper, class)).or_insert(0) += 1;
     }
 
+    #[allow(dead_code)]
     pub fn max(&mut self, helper: &'static str, class: &'static str, v: u64) {
         let e = self.max.entry((helper, class)).or_insert(0);
         if v > *e {
@@ -181,6 +183,7 @@ impl Tally {
         }
     }
 
+    #[allow(dead_code)]
     pub fn get(&self, helper: &'static str, class: &'static str) -> u64 {
         self.map.get(&(helper, class)).copied().unwrap_or(0)
     }
@@ -208,6 +211,12 @@ pub struct Distinct {
 impl Distinct {
     pub fn new(budget: u64) -> Self {
         Self { left: budget }
+    }
+
+    /// Budget per (shard, type) such that all shards together stay below the monitor's cap of
+    /// 2·10⁶ distinct signatures.
+    pub fn budget_for(shards: u64) -> u64 {
+        1_900_000 / (shards.max(1) * 2)
     }
 
     pub fn note(&mut self, m: &mut Monitor, tag: u64, words: &[u128]) {
